@@ -11,3 +11,6 @@ open Biogo.Properties.C04_seq
 #print axioms fasta_blank_line_any
 #print axioms fastq_crlf_any
 #print axioms fastq_trailing_blanks_any
+#print axioms fasta_renders_toCRLF
+#print axioms fastq_view
+#print axioms fastq_renders_toCRLF
